@@ -109,7 +109,8 @@ def u1():
     B = [[i] for i in (1, 2, 3, 4, 5, 6, 7, 9, 11, 12, 13, 14, 15, 16, 17, 18, 19)] + [
         [1, 2], [2, 3], [1, 2, 3], [2, 3, 4], [3, 4], [4, 12], [3, 4, 12],
         [5, 6], [1, 5, 6], [1, 5], [7, 8], [9, 10], [3, 9, 10], [11, 13], [3, 11, 13], [4, 11],
-        [12, 17], [4, 14, 15], [14, 15], [4, 16], [18, 19], [4, 18], [1, 3], [4, 4]]
+        [12, 17], [4, 14, 15], [14, 15], [4, 16], [18, 19], [4, 18], [1, 3], [4, 4],
+        []]                                          # an empty headers message
     return _mk(H, {1: 1, 3: 3}, 2, [0, 7], [4, 13], 2, 3, batches=B,
                init_chains=[(0,), (0, 1), (0, 1, 2, 3), (0, 1, 2, 3, 4), (0, 1, 2, 3, 4, 12)])
 
